@@ -8,7 +8,8 @@
 // the WHERE clauses). Cases where DuckDB rejects the original are not judged.
 //
 // Files: main.go (driver, DuckDB workers), time.go (time_bucket/date_trunc grid), url.go (URL-domain
-// regex grid), like.go (LIKE / <> ” predicate grid).
+// regex grid), like.go (LIKE / <> ” predicate grid), likebool.go (boolean structure / parenthesisation grid
+// around the trailing emptiness check).
 package main
 
 import (
@@ -317,9 +318,11 @@ func main() {
 	tg := newTimeGrid(quick)
 	ug := newURLGrid(quick)
 	lg := newLikeGrid(quick)
+	bg := newBoolGrid(quick)
 	setupSQL = append(setupSQL, tg.setup()...)
 	setupSQL = append(setupSQL, ug.setup()...)
 	setupSQL = append(setupSQL, lg.setup()...)
+	setupSQL = append(setupSQL, bg.setup()...)
 	ws := make([]*worker, nWorkers)
 	var wg sync.WaitGroup
 	for i := range ws {
@@ -335,7 +338,7 @@ func main() {
 	if debug {
 		fmt.Fprintf(os.Stderr, "setup done %.1fs\n", time.Since(t0).Seconds())
 	}
-	for _, sec := range []section{tg, ug, lg} {
+	for _, sec := range []section{tg, ug, lg, bg} {
 		ok := sec.explore(run, ws, samples)
 		if debug {
 			fmt.Fprintf(os.Stderr, "%s done %.1fs %v\n", sec.name(), time.Since(t0).Seconds(), sec.coverage())
@@ -352,15 +355,16 @@ func main() {
 		}
 	}
 	var evals, nontriv int64
-	for _, sec := range []section{tg, ug, lg} {
+	for _, sec := range []section{tg, ug, lg, bg} {
 		st := sec.st()
 		evals += st.Pairs
 		nontriv += st.Judged
 	}
 	run.Coverage["evaluations"] = evals
 	run.Coverage["distinct_nontrivial"] = nontriv
-	run.Coverage["rule"] = "every statement of three explicit grids (time: every spelling x amount x unit x origin x column type over a table of boundary timestamps; " +
-		"url: every regex pattern built from the component grammar x REGEXP_REPLACE/REGEXP_EXTRACT over a table of URL strings; like: every WHERE clause of the predicate grammar over a table of all NULL/''/'x'/'y' combinations) " +
+	run.Coverage["rule"] = "every statement of four explicit grids (time: every spelling x amount x unit x origin x column type over a table of boundary timestamps; " +
+		"url: every regex pattern built from the component grammar x REGEXP_REPLACE/REGEXP_EXTRACT over a table of URL strings; like: every WHERE clause of the predicate grammar over a table of all NULL/''/'x'/'y' combinations; " +
+		"likebool: every boolean structure (AND/OR/NOT, every parenthesisation, upper/lower-case keywords) of 1-3 LIKE / equality / IN / emptiness-check leaves over a table of all LIKE true/false/NULL x equality true/false/NULL x c empty/non-empty/NULL rows) " +
 		"is rewritten by Arc's real functions; evaluations = (statement,row) pairs where the rewrite changed the text and DuckDB accepted the original, each compared original vs rewritten in DuckDB; " +
 		"non-trivial = a statement whose text the rewrite changed and whose original DuckDB accepts (unchanged statements are trivial and only counted); distinct by original statement text (every grid point renders a different statement)"
 	run.Coverage["samples"] = samples.List()
